@@ -414,17 +414,6 @@ pub assume_specification [<crate::grammar::ItemDefinition as Clone>::clone] (p: 
 pub assume_specification [<crate::grammar::Type as Clone>::clone] (p: &crate::grammar::Type) -> (r: crate::grammar::Type)
     ensures r == *p;
 
-/// R-std: `reg.get_mut(p).unwrap().state = v;` (`HashMap::get_mut` returns `Option<&mut V>`, outside Verus' subset;
-/// trusted wrapper whose body is the original statement)
-#[verifier::external_body]
-pub fn v_set_state(reg: &mut crate::semantic::TypeRegistry, p: &crate::grammar::ItemPath, v: crate::semantic::types::ItemState)
-    requires old(reg).types@.contains_key(*p),
-    ensures
-        final(reg).pointer_size == old(reg).pointer_size,
-        final(reg).types@ == old(reg).types@.insert(*p, crate::semantic::types::ItemDefinition { state: v, ..old(reg).types@[*p] }),
-{
-    reg.get_mut(p).unwrap().state = v;
-}
 pub assume_specification [<crate::semantic::types::ItemState as Clone>::clone] (p: &crate::semantic::types::ItemState) -> (r: crate::semantic::types::ItemState)
     ensures r == *p;
 
